@@ -11,6 +11,7 @@ import (
 	"github.com/jmattheis/goverter/config"
 	"github.com/jmattheis/goverter/method"
 	"github.com/jmattheis/goverter/namer"
+	"github.com/jmattheis/goverter/veriftrace"
 	"github.com/jmattheis/goverter/xtype"
 )
 
@@ -43,10 +44,13 @@ func (g *generator) getGenMethods() []*generatedMethod {
 
 func (g *generator) buildMethods(f *jen.File) error {
 	for g.anyDirty() {
+		veriftrace.Emit("gen.sweep")
 		if err := g.buildDirtyMethods(); err != nil {
+			veriftrace.Emit("gen.fail", "err", err)
 			return err
 		}
 	}
+	veriftrace.Emit("gen.append", "format", string(g.conf.OutputFormat))
 	g.appendGenerated(f)
 	return nil
 }
@@ -57,7 +61,9 @@ func (g *generator) buildDirtyMethods() error {
 			continue
 		}
 		genMethod.Dirty = false
+		veriftrace.Emit("gen.pick", "m", genMethod.Name)
 		err := g.buildMethod(genMethod, genMethod.Context)
+		veriftrace.Emit("gen.end", "m", genMethod.Name, "ok", err == nil, "retErr", genMethod.ReturnError, "ctx", genMethod.Context)
 		if err != nil {
 			err = err.Lift(&builder.Path{
 				SourceID:   "source",
@@ -121,6 +127,7 @@ func (g *generator) appendGenerated(f *jen.File) {
 }
 
 func (g *generator) buildMethod(genMethod *generatedMethod, context map[string]*xtype.Type) *builder.Error {
+	veriftrace.Emit("gen.top", "m", genMethod.Name, "avail", context, "src", genMethod.Source, "tgt", genMethod.Target, "update", genMethod.UpdateTarget, "retErr", genMethod.ReturnError, "ctx", genMethod.Context)
 	var sourceID *xtype.JenID
 	source := genMethod.Source
 	target := genMethod.Target
@@ -221,10 +228,12 @@ func (g *generator) buildNoLookup(ctx *builder.MethodContext, sourceID *xtype.Je
 
 	for _, rule := range BuildSteps {
 		if rule.Matches(ctx, source, target) {
+			veriftrace.Emit("gen.rule", "m", g.lookup.ByID(ctx.IndexID).Name, "rule", fmt.Sprintf("%T", rule), "mode", "build", "s", source, "t", target, "skip", ctx.Conf.SkipCopySameType, "zero", ctx.Conf.UseZeroValueOnPointerInconsistency, "under", ctx.Conf.UseUnderlyingTypeMethods, "enum", ctx.Conf.Enum.Enabled)
 			return rule.Build(g, ctx, sourceID, source, target, errPath)
 		}
 	}
 
+	veriftrace.Emit("gen.mismatch", "m", g.lookup.ByID(ctx.IndexID).Name, "s", source, "t", target, "skip", ctx.Conf.SkipCopySameType, "zero", ctx.Conf.UseZeroValueOnPointerInconsistency, "under", ctx.Conf.UseUnderlyingTypeMethods, "enum", ctx.Conf.Enum.Enabled)
 	return nil, nil, typeMismatch(source, target)
 }
 
@@ -235,10 +244,12 @@ func (g *generator) assignNoLookup(ctx *builder.MethodContext, assignTo *builder
 
 	for _, rule := range BuildSteps {
 		if rule.Matches(ctx, source, target) {
+			veriftrace.Emit("gen.rule", "m", g.lookup.ByID(ctx.IndexID).Name, "rule", fmt.Sprintf("%T", rule), "mode", "assign", "s", source, "t", target, "skip", ctx.Conf.SkipCopySameType, "zero", ctx.Conf.UseZeroValueOnPointerInconsistency, "under", ctx.Conf.UseUnderlyingTypeMethods, "enum", ctx.Conf.Enum.Enabled)
 			return rule.Assign(g, ctx, assignTo, sourceID, source, target, errPath)
 		}
 	}
 
+	veriftrace.Emit("gen.mismatch", "m", g.lookup.ByID(ctx.IndexID).Name, "s", source, "t", target, "skip", ctx.Conf.SkipCopySameType, "zero", ctx.Conf.UseZeroValueOnPointerInconsistency, "under", ctx.Conf.UseUnderlyingTypeMethods, "enum", ctx.Conf.Enum.Enabled)
 	return nil, typeMismatch(source, target)
 }
 
@@ -305,6 +316,7 @@ func (g *generator) CallMethod(
 		return nil, nil, formatErr(cause)
 	}
 
+	veriftrace.Emit("gen.call", "caller", g.lookup.ByID(ctx.IndexID).Name, "callee", definition.Name, "generated", definition.Generated, "custom", definition.CustomCall != nil, "retErr", definition.ReturnError, "ctx", definition.Context)
 	qual := g.qualMethod(definition)
 	if definition.ReturnError {
 		name := ctx.Name(target.ID())
@@ -337,6 +349,7 @@ func (g *generator) ReturnError(ctx *builder.MethodContext, errPath builder.Erro
 			if !check.ReturnError {
 				check.ReturnError = true
 				check.Dirty = true
+				veriftrace.Emit("gen.neederr", "m", check.Name)
 			}
 		}
 	}
@@ -372,6 +385,7 @@ func (g *generator) requireContext(ctx *builder.MethodContext, need *xtype.Type)
 			Type: need,
 		})
 		check.Dirty = true
+		veriftrace.Emit("gen.needctx", "m", check.Name, "t", need.String)
 	}
 	return true
 }
@@ -477,15 +491,18 @@ func (g generator) callExisting(
 ) ([]jen.Code, *xtype.JenID, *builder.Error) {
 	signature := xtype.SignatureOf(source, target)
 	if def, err := g.extend.Get(signature, ctx.AvailableContext); def != nil {
+		veriftrace.Emit("gen.lookup", "m", g.lookup.ByID(ctx.IndexID).Name, "src", signature.Source, "tgt", signature.Target, "hit", "extend", "callee", def.Name)
 		return g.CallMethod(ctx, def, sourceID, source, target, errPath)
 	} else if err != nil {
 		return nil, nil, builder.NewError(err.Error())
 	}
 	if genMethod, err := g.lookup.Get(signature, ctx.AvailableContext); genMethod != nil {
+		veriftrace.Emit("gen.lookup", "m", g.lookup.ByID(ctx.IndexID).Name, "src", signature.Source, "tgt", signature.Target, "hit", "method", "callee", genMethod.Name)
 		return g.CallMethod(ctx, genMethod.Definition, sourceID, source, target, errPath)
 	} else if err != nil {
 		return nil, nil, builder.NewError(err.Error())
 	}
+	veriftrace.Emit("gen.lookup", "m", g.lookup.ByID(ctx.IndexID).Name, "src", signature.Source, "tgt", signature.Target, "hit", "none", "callee", "")
 	return nil, nil, nil
 }
 
@@ -504,6 +521,7 @@ func (g *generator) shouldCreateSubMethod(ctx *builder.MethodContext, source, ta
 
 	if ctx.HasSeen(source) {
 		g.lookup.ByID(ctx.IndexID).Dirty = true
+		veriftrace.Emit("gen.seen", "m", g.lookup.ByID(ctx.IndexID).Name, "s", source.String)
 		createSubMethod = true
 	} else if !isCurrentPointerStructMethod {
 		switch {
@@ -520,6 +538,7 @@ func (g *generator) shouldCreateSubMethod(ctx *builder.MethodContext, source, ta
 			createSubMethod = false
 		}
 	}
+	veriftrace.Emit("gen.sub", "m", g.lookup.ByID(ctx.IndexID).Name, "s", source, "t", target, "create", createSubMethod, "ptrStruct", isCurrentPointerStructMethod, "skip", ctx.Conf.SkipCopySameType)
 	ctx.MarkSeen(source)
 
 	return createSubMethod
@@ -561,10 +580,13 @@ func (g *generator) createSubMethod(ctx *builder.MethodContext, sourceID *xtype.
 	}
 
 	genMethod.IndexID, _ = g.lookup.Register(genMethod, genMethod.Definition)
+	veriftrace.Emit("gen.newsub", "m", name, "src", source.String, "tgt", target.String, "creator", orig.Name)
 
 	if err := g.buildMethod(genMethod, ctx.AvailableContext); err != nil {
+		veriftrace.Emit("gen.end", "m", name, "ok", false, "retErr", genMethod.ReturnError, "ctx", genMethod.Context)
 		return nil, nil, err
 	}
+	veriftrace.Emit("gen.end", "m", name, "ok", true, "retErr", genMethod.ReturnError, "ctx", genMethod.Context)
 	return g.CallMethod(ctx, genMethod.Definition, sourceID, source, target, errPAth)
 }
 
